@@ -113,11 +113,13 @@ def values_equal(a, b):
 
 
 # ----------------------------------------------------------------------------- environment / derivations
-SYSTEMS = {"A": ("1q", [0]), "B": ("1q", [1]), "Q": ("qutrit", [2])}
+SYSTEMS = {"A": ("1q", [0]), "B": ("1q", [1]), "Q": ("qutrit", [2]), "D": ("2q", [3, 4])}
+SYS_KEYS = ["A", "B", "Q", "D"]
 BASE_LAYOUT = [  # (system, type)
     ("A", "state"), ("A", "state"), ("A", "povm"), ("A", "povm"), ("A", "gate"), ("A", "gate"), ("A", "mprocess"),
     ("B", "state"), ("B", "povm"), ("B", "gate"), ("B", "mprocess"),
     ("Q", "state"), ("Q", "povm"), ("Q", "gate"),
+    ("D", "state"), ("D", "povm"), ("D", "gate"), ("D", "gate"), ("D", "mprocess"),  # a composite of two elemental systems
 ]
 
 
@@ -282,10 +284,11 @@ class Machine:
         self.ctx = ctx
         self.env = Env(case["recipes"])
         self.pool = []  # entries: dict(expr, obj, typ, sys)
-        for i, (sysname, typ) in enumerate(BASE_LAYOUT):
+        # (replay files written before the layout was extended carry fewer recipes: the pool is the matching prefix)
+        for i, (sysname, typ) in enumerate(BASE_LAYOUT[: len(case["recipes"])]):
             self.pool.append({"expr": ("base", i), "obj": self.env.base(i), "typ": typ, "sys": sysname, "uses": 0})
         self.snaps = [canon(e["obj"]) for e in self.pool]
-        self.cache_deleted_since_use = {k: False for k in SYSTEMS}
+        self.cache_deleted_since_use = {k: False for k in list(SYSTEMS) + ["AB"]}
         self.nontrivial = False
         self.n_bitwise_mismatch = 0
 
@@ -341,7 +344,7 @@ class Machine:
             chains = [("povm", "gate", "state"), ("gate", "gate", "state"), ("povm", "mprocess", "state"), ("mprocess", "gate", "state")]
             ch = chains[sel[2] % len(chains)]
             out = []
-            sysname = ["A", "B", "Q"][sel[0] % 3]
+            sysname = SYS_KEYS[sel[0] % len(SYS_KEYS)]
             for k, t in enumerate(ch):
                 c = [j for j in self.candidates((t,), sysname=sysname)
                      if self.pool[j]["obj"].composite_system is self.env.sys[sysname]]
@@ -378,18 +381,27 @@ class Machine:
         for k, step in enumerate(self.case["program"]):
             name = step["op"]
             if name == "cache_delete":
-                s = ["A", "B", "Q"][step["sel"][0] % 3]
+                s = SYS_KEYS[step["sel"][0] % len(SYS_KEYS)]
                 attr = CACHE_ATTRS[step["sel"][1] % len(CACHE_ATTRS)]
                 getattr(self.env.sys[s], "delete_" + attr)()
                 self.cache_deleted_since_use[s] = True
                 ctx.label("step:cache_delete")
                 continue
             if name == "cache_touch":
-                s = ["A", "B", "Q"][step["sel"][0] % 3]
-                attr = CACHE_ATTRS[step["sel"][1] % len(CACHE_ATTRS)]
-                v1 = canon_cache(getattr(self.env.sys[s], attr))
+                s = SYS_KEYS[step["sel"][0] % len(SYS_KEYS)]
                 fenv = Env(self.case["recipes"])
-                v2 = canon_cache(getattr(fenv.sys[s], attr))
+                tables = CACHE_ATTRS + ["comp_basis:row_major", "comp_basis:column_major", "basis"]
+                attr = tables[step["sel"][1] % len(tables)]
+
+                def table(env_):
+                    c = env_.sys[s]
+                    if attr.startswith("comp_basis:"):
+                        return canon([np.asarray(x) for x in c.comp_basis(mode=attr.split(":")[1])])
+                    if attr == "basis":
+                        return canon([x for x in c.basis()])
+                    return canon_cache(getattr(c, attr))
+
+                v1, v2 = table(self.env), table(fenv)
                 ctx.check(v1 == v2, "cache_table_equals_fresh", f"{attr} of system {s} at step {k}")
                 if self.cache_deleted_since_use[s]:
                     self.nontrivial = True
@@ -513,7 +525,8 @@ def recipe(draw, sysname, typ):
 
 @st.composite
 def step_st(draw):
-    name = draw(st.sampled_from(list(OPS) + ["cache_delete"] * 5 + ["cache_touch"] * 3 + ["proj_eq_var", "proj_ineq_var", "compose", "tensor", "proj_physical"]))
+    name = draw(st.sampled_from(list(OPS) + ["cache_delete"] * 5 + ["cache_touch"] * 4 + ["to_comp_basis"] * 3
+                                + ["proj_eq_var", "proj_ineq_var", "compose", "tensor", "proj_physical", "process_matrix", "kraus"]))
     s = {"op": name, "sel": [draw(st.integers(0, 63)) for _ in range(3)]}
     p = {}
     if name in ("is_physical_atol", "set_atol_query"):
